@@ -24,6 +24,8 @@ Sensitivity (quick tier against a mutated scratch copy of /repo; "caught" = exit
   M10 reduction with int(): output % int(mod) for float modulo   caught   C20/wrong-return
   M11 restore also overwrites initdef (a later 'reset' returns   caught   C20/wrong-return
       to the restored value; needs persistent restore + reset)
+  C20-s8 (seeded) no early initialisation between the two init   caught   C20/init-event-aborted-start
+      passes: 'inc' from an earlier-created block's init routine
   M12 put handler takes **data and reads data['value'] (the      caught   C20/missing-value-stopped-simulation
       KeyError is raised inside the handler -> simulation aborted)
 """
@@ -51,7 +53,11 @@ RULE = ("one run = one Counter configuration (modulo in {None,1,2,7,10,2.5}, ini
         "multiples of 0.5), puts without value, unknown events, ignored extra data items, sent "
         "externally or by another block; 35% of the persistent runs restart from the storage left "
         "behind (untouched / tampered to an out-of-range value / entry deleted), possibly with a "
-        "changed modulo or initdef, and continue with 0-4 events. Run indices 0..2903 sweep all "
+        "changed modulo or initdef, and continue with 0-4 events; 25% of the simulations also "
+        "receive 1-3 well-formed events while the circuit is being initialised: from the "
+        "initialisation routine of a block created before the Counter, of one created after it, "
+        "or from an asynchronous initialisation routine (between the two initialisation passes). "
+        "Run indices 0..2903 sweep all "
         "(modulo x 4 initdefs x ordered pairs of 11 basic events), indices 2904..34847 all triples, "
         "each followed by a random tail; the rest is random. non-trivial = at least one arithmetic "
         "event was processed; distinct = hash of (modulo, initdef class, per event: kind, amount "
@@ -59,8 +65,14 @@ RULE = ("one run = one Counter configuration (modulo in {None,1,2,7,10,2.5}, ini
 REACH_EXPECTED = ['wrapped_up', 'wrapped_down', 'initdef_out_of_range', 'put_without_value',
                   'unknown_event', 'prestored_out_of_range', 'restart', 'restart_tampered',
                   'restart_modulo_changed', 'float_modulo', 'big_int', 'modulo_zero_refused',
-                  'via_block', 'reset_after_change', 'ignored_extra_item', 'half_amount']
+                  'via_block', 'reset_after_change', 'ignored_extra_item', 'half_amount',
+                  'init_event_pre', 'init_event_post', 'init_event_async',
+                  'init_event_to_unrestored_counter']
 ASSUMPTIONS = [
+    "events sent to the Counter during the initialisation of the circuit: the Counter first "
+    "completes its own initialisation (restored value, else initdef), then handles the event "
+    "(docs/blocks.rst, initialization rules); order: asynchronous routines, then the regular "
+    "routines in the order of block creation",
     "numbers are integers of any size, or (in 'dyadic' runs) multiples of 0.5 with magnitude "
     "below 2**40, so that Python's own arithmetic is exact and equality with the rational model "
     "is demanded without tolerance; huge integers are not combined with the float modulo 2.5 "
@@ -139,6 +151,21 @@ def _gen_op(rng, style, big_ok):
     return {'ev': ev, 'data': data, 'via': via, 'yield': rng.random() < 0.3}
 
 
+def _gen_init_events(rng, style, big_ok):
+    """Well-formed events that reach the Counter while the circuit is being initialised."""
+    out = []
+    for _ in range(rng.choice([1, 1, 2, 3])):
+        ev = rng.choice(['inc', 'inc', 'dec', 'dec', 'put', 'reset'])
+        data = {}
+        if ev in ('inc', 'dec') and rng.random() < 0.5:
+            data['amount'] = _number(rng, style, big_ok)
+        elif ev == 'put':
+            data['value'] = _number(rng, style, big_ok)
+        out.append({'route': rng.choice(['pre', 'pre', 'post', 'async']), 'ev': ev, 'data': data,
+                    'delay': rng.choice([0, 0.001, 0.5, 2.0])})
+    return out
+
+
 def _gen_initdef(rng, modulo, style, big_ok):
     r = rng.random()
     if r < 0.3:
@@ -187,7 +214,8 @@ def gen(rng, tier, index=0):
     for _ in range(ntail):
         ops.append(_gen_op(rng, style, big_ok))
     cfg = {'modulo': modulo, 'initdef': initdef, 'persistent': persistent,
-           'sync_state': rng.random() < 0.7}
+           'sync_state': rng.random() < 0.7,
+           'init_events': _gen_init_events(rng, style, big_ok) if rng.random() < 0.25 else []}
     plan = {'knobs': knobs, 'cfg': cfg, 'ops': ops, 'stored': None, 'restart': None, 'ctor': [],
             'sweep': sweep}
     if persistent and rng.random() < 0.4:
@@ -200,6 +228,8 @@ def gen(rng, tier, index=0):
                 big_ok = False
         if rng.random() < 0.3:
             cfg2['initdef'] = _gen_initdef(rng, cfg2['modulo'], style, big_ok)
+        cfg2['init_events'] = (_gen_init_events(rng, style, big_ok and cfg2['modulo'] != 2.5)
+                               if rng.random() < 0.25 else [])
         r = rng.random()
         tamper = None
         if r < 0.45:
@@ -231,6 +261,25 @@ class Sender(edzed.SBlock):
 
     def _event_fire(self, *, etype, data, **_kw):
         return edzed.Event(self.x_dest, etype).send(self, **data)
+
+
+class InitSender(edzed.SBlock):
+    """Sends events to the Counter from its own (regular) initialisation routine."""
+
+    def init_regular(self):
+        for event, data in self.x_events:
+            event.send(self, **data)
+        self.set_output(0)
+
+
+class AsyncInitSender(edzed.AddonAsync, edzed.SBlock):
+    """Sends events to the Counter while the asynchronous initialisation is in progress."""
+
+    async def init_async(self):
+        for event, data, delay in self.x_events:
+            await asyncio.sleep(delay)
+            event.send(self, **data)
+        self.set_output(0)
 
 
 def num(x):
@@ -298,11 +347,36 @@ def run_phase(run, tag, cfg, initial, ops, info):
     if cfg.get('persistent'):
         kw['persistent'] = True
         kw['sync_state'] = bool(cfg.get('sync_state', True))
+    init_events = {'async': [], 'pre': [], 'post': []}
+    for ie in cfg.get('init_events') or []:
+        if (not isinstance(ie, dict) or ie.get('route') not in init_events
+                or ie.get('ev') not in ('inc', 'dec', 'put', 'reset')
+                or not isinstance(ie.get('data'), dict)
+                or (ie['ev'] == 'put' and 'value' not in ie['data'])
+                or not all(_is_number(v) for v in ie['data'].values())
+                or not _is_number(ie.get('delay', 0)) or ie.get('delay', 0) < 0):
+            raise PlanError('bad init event')
+        init_events[ie['route']].append(ie)
     try:
+        # created BEFORE the Counter: their initialisation routines run before the Counter's
+        if init_events['pre']:
+            InitSender('pre', x_events=[(edzed.Event('cnt', ie['ev']), dict(ie['data']))
+                                        for ie in init_events['pre']])
+        if init_events['async']:
+            AsyncInitSender('asy', init_timeout=60.0,
+                            x_events=[(edzed.Event('cnt', ie['ev']), dict(ie['data']),
+                                       float(ie.get('delay', 0))) for ie in init_events['async']])
         cnt = edzed.Counter('cnt', **kw)
         sender = Sender('sender', x_dest=cnt)
+        if init_events['post']:
+            InitSender('post', x_events=[(edzed.Event('cnt', ie['ev']), dict(ie['data']))
+                                         for ie in init_events['post']])
     except Exception as err:
         raise PlanError(f"construction failed: {type(err).__name__}: {err}") from None
+    # documented initialisation order: persistent data of all blocks, asynchronous routines,
+    # then the regular routines / initdef in the order of creation; a block receiving an event
+    # earlier completes its own initialisation first and then handles the event
+    expected_init = init_events['async'] + init_events['pre'] + init_events['post']
     circuit = edzed.get_circuit()
     storage = None
     if cfg.get('persistent'):
@@ -313,11 +387,13 @@ def run_phase(run, tag, cfg, initial, ops, info):
         restored = initial[cnt.key]
         if not _is_number(restored):
             raise PlanError('stored value is not a number')
-    state = {'result': None}
+    state = {'result': None, 'initialising': True, 'init_log': []}
 
-    def hook(phase, _blk, _etype, arg):
+    def hook(phase, _blk, etype, arg):
         if phase != 'pre':
             state['result'] = (phase, arg)
+            if state['initialising']:
+                state['init_log'].append((etype, phase, arg))
     fsmlib.hook_events(cnt, hook)
     mclass = 'N' if cfg['modulo'] is None else ('F' if isinstance(cfg['modulo'], float) else 'I')
 
@@ -444,9 +520,30 @@ def run_phase(run, tag, cfg, initial, ops, info):
             await circuit.wait_init()
         except Exception as err:    # pylint: disable=broad-except
             init_err = err
+        state['initialising'] = False
         exp0 = model.start(restored)
+        init_bad = None
+        exp_rets = []
+        for ie in expected_init:
+            run.fired('reach:init_event_' + ie['route'])
+            exp_rets.append((ie['ev'], model.event(ie['ev'], ie['data'])))
+            run.beh('init', ie['route'], ie['ev'])
+        if expected_init and restored is None:
+            run.fired('reach:init_event_to_unrestored_counter')
+        exp0 = model.value
         run.log('start', tag, canon(cfg), canon(restored), num(exp0), canon(cnt.output),
-                canon(init_err))
+                canon(init_err), canon([(e, p, a) for e, p, a in state['init_log']]))
+        if expected_init and init_err is None:
+            got = state['init_log']
+            if len(got) != len(exp_rets):
+                init_bad = f"{len(got)} events reached the Counter, {len(exp_rets)} were sent"
+            else:
+                for (ev, exp), (etype, phase, arg) in zip(exp_rets, got):
+                    if etype != ev or phase != 'post' or not (_is_number(arg) and arg == exp):
+                        init_bad = (f"event {ev} sent during the initialisation: expected to "
+                                    f"return {num(exp)}, observed {canon(etype)} {phase} "
+                                    f"{canon(arg)}")
+                        break
         if restored is not None and not model.in_range(restored):
             run.fired('reach:prestored_out_of_range')
         run.beh(tag, mclass, 'restored' if restored is not None else
@@ -454,9 +551,16 @@ def run_phase(run, tag, cfg, initial, ops, info):
                  ('in' if model.in_range(cfg['initdef']) else 'out')))
         ok = True
         if init_err is not None or not alive():
-            run.violate('C20/start-failed', f"{tag}: the simulation did not start: "
-                        f"{canon(init_err)} / {canon(circuit.error)}")
+            sig = 'C20/init-event-aborted-start' if expected_init else 'C20/start-failed'
+            run.violate(sig, f"{tag}: the simulation did not start: "
+                        f"{canon(init_err)} / {canon(circuit.error)}; events sent to the Counter "
+                        f"during the initialisation: {canon(expected_init)}")
             ok = False
+        elif init_bad:
+            run.violate('C20/init-event-result', f"{tag}: {init_bad} (initdef {cfg['initdef']}, "
+                        f"restored {canon(restored)}, modulo {cfg['modulo']}, output now "
+                        f"{canon(cnt.output)}, expected {num(exp0)})")
+            model.value = Fraction(cnt.output) if _is_number(cnt.output) else exp0
         elif not (_is_number(cnt.output) and cnt.output == exp0):
             site = 'restored' if restored is not None else 'initdef'
             run.violate(f"C20/initial-value/{site}",
